@@ -64,7 +64,7 @@ def E1(inp, N, n=2, ro=False):
         cl['grant_only_uptodate'] = Or(llt > p.last_term, And(Eq(llt, p.last_term), lli >= p.last))
         cl['granter_not_leader'] = q.role != L
         cl['grant_resets_election_timer'] = q.deadline >= now
-    obs = dict(role=p.role, voted=p.voted, granted=granted, sender=sender.id, post_voted=q.voted, post_role=q.role,
+    obs = lambda: dict(role=p.role, voted=p.voted, granted=granted, sender=sender.id, post_voted=q.voted, post_role=q.role,
                post_term=show(q.term), exc=show(exc))
     return Res(cl, nontrivial=granted or ro, obs=obs,
                vars=dict(role=p.role, granted=granted, term=p.term, mterm=mterm))
@@ -100,7 +100,7 @@ def E3(inp, N, n=2, ro=False):
         cl['leader_pointer'] = (q.leader == Node('a')) if N == 1 else (q.leader is None)
     else:
         cl['nothing_changes'] = And(q.voted == p.voted, q.role == p.role, Eq(q.votes, p.votes), len(q.log) == len(p.log))
-    obs = dict(role=p.role, started=started, conn=p.conn, post_role=q.role, sent=[(nd.id, m['type']) for nd, m in tr.sent], exc=show(exc))
+    obs = lambda: dict(role=p.role, started=started, conn=p.conn, post_role=q.role, sent=[(nd.id, m['type']) for nd, m in tr.sent], exc=show(exc))
     return Res(cl, nontrivial=started, obs=obs)
 
 
@@ -134,5 +134,5 @@ def E4(inp, N, n=2):
         cl['response_times_reset'] = And([Eq(q.resp.get(x.id), now) for x in p.others])
     else:
         cl['log_untouched'] = so.logs_equal(p.log, q.log)
-    obs = dict(role=p.role, became=became, post_role=q.role, sent=[(nd.id, m['type']) for nd, m in tr.sent], exc=show(exc))
+    obs = lambda: dict(role=p.role, became=became, post_role=q.role, sent=[(nd.id, m['type']) for nd, m in tr.sent], exc=show(exc))
     return Res(cl, nontrivial=Or(became, counted), obs=obs)
